@@ -38,6 +38,20 @@ Proof step (Props/C14.v) + three ties to the tree under test, all re-done on eve
  (E3)     a diagnostic token whose text occurs exactly once in a program without text substitution is cited at that occurrence;
  (C3)     bracket plants: the offending token is a BRACKET (round / square / curly / arrow-function body / backtick string) that spans several
           lines, in 7 inner layouts, at nesting depths 0-3, in the outer layouts of round 2; expected = the bracket's first character.
+ strengthening round 4 (c14_gen4.py):
+ (A)      the tokenizer tie uses the REPAIRED model Model.TokEnd.parse_r ("Expected semicolon(;)" cites Token.end of the last token);
+ (X)      the end position the tokenizer records for every string literal of every recorded Tokenizer.parse call, Token.end and
+          Token.length == Model.TokEnd.parse_ends / tok_end / tok_len_r (theorems C14_string_end_recorded, C14_token_end);
+ (E)      header and sentence of every error_msg call == Model.TokEnd.cite_r col_length <token> <its recorded end>; Token.end / Token.length of
+          that token == the model's;
+ (G)      every recorded call of parse_func_args / parse_js_obj / parse_component / parse_list / parse_param: the structure returned resp.
+          the diagnostic and the token it cites == Model.TokArgs on the tokens of the inner tokenizer run (theorems C14_args_*);
+ (C4)     argument-diagnostic plants: every diagnostic of those parsers planted at every argument index 0-4 behind every mix of positional /
+          keyword / signed / arrow-function / list / JS-object arguments, 7 inner layouts, 14 carriers, nesting chains of round 3;
+ (C5)     anchor plants: for every raise site with col_length=True (enumerated from the tree with ast; coverage measured and enforced) a
+          statement in which an anchor token stands right in front of the missing text; anchors: keywords, numbers, selectors, string
+          literals written in 22 ways, backtick strings, brackets of each kind on one / several lines, header-macro expansions;
+          expected = the position right after the anchor's last character.
 """
 from __future__ import annotations
 
@@ -49,6 +63,7 @@ from lib import (Check, COMMON_TRUSTED, NCPU, REPO, VERIF, coq_bool, coq_opt, co
 from c13_corpus import corpus, FULL_CERT
 from c14_lib import (COQ_HEADER, call_encodable, encodable, env_term, offset_of, pos_of, rtok_term, tcase_term, token_at)
 from lib import known_for
+import c14_gen4 as g4
 
 PROP = "C14"
 RUNNER = VERIF / "harness" / "c14_run.py"
@@ -899,7 +914,7 @@ def main(tier: str) -> int:
             seen.add(key)
             calls.append((p, call, kind))
     header = COQ_HEADER + env_term([c["string"] for _, c, _ in calls])
-    bad, errs = eval_cases(PROP, header, [tcase_term(c) for _, c, _ in calls], per_file=300, checker="tmismatches E")
+    bad, errs = eval_cases(PROP, header, [tcase_term(c) for _, c, _ in calls], per_file=300, checker="tmismatches_r E")
     for e in errs:
         ck.violation(dict(kind="correspondence-file-failed", log=e), no_input=True)
     for i in bad[:5]:
@@ -907,7 +922,7 @@ def main(tier: str) -> int:
         ck.violation(dict(kind="model-differs-from-tokenizer", check="A", program=p["src"], text=call["string"][:500],
                           start=[call["line"], call["col"]], flags=dict(es=call["es"], alms=call["alms"], allow_semi=call["allow_semi"]),
                           real=json.dumps(call["out"])[:1500],
-                          theorem="C14_tok_pos / C14_diag_pos no longer speak about the code"), no_input=True)
+                          theorem="C14_tok_pos / C14_diag_pos / C14_expected_semicolon_end no longer speak about the code"), no_input=True)
 
     # ---- (C) plants
     plant_jobs = []
@@ -928,6 +943,9 @@ def main(tier: str) -> int:
     plant_jobs += expr_plants()
     plant_jobs += arg_plants(rng, tier)
     plant_jobs += bracket_plants(rng, tier)
+    g4_args = (rng, tier, nest_program, render_bracket, BRACKET_CHAINS, BASE_LAYOUTS, BRACE_LAYOUTS, BRACKET_LAYOUTS)
+    plant_jobs += g4.argdiag_plants(*g4_args)
+    plant_jobs += g4.anchor_plants(*g4_args)
     pres = run_jobs([dict(src=j["src"], header=j["header"], cert=FULL_CERT, pack_format=j["pack_format"], timeout=10)
                      for j in plant_jobs], chunk=100)
     # (B)/(B2)/(A2) on what was tokenised before the diagnostic of the plant
@@ -951,7 +969,7 @@ def main(tier: str) -> int:
     by_depth, by_layout, by_construct_brace = {}, {}, {}
     model_cases = []
     reportedC = 0
-    n_stmt_plants = sum(1 for j in plant_jobs if j["kind"] not in ("arg", "bracket"))
+    n_stmt_plants = sum(1 for j in plant_jobs if j["kind"] not in ("arg", "bracket", "argdiag", "anchor"))
     n_arg = n_arg_about = 0
     arg_by_form, arg_by_ctx = {}, {}
     known_c14 = list(known_for(PROP))
@@ -959,7 +977,78 @@ def main(tier: str) -> int:
         known_c14 += [f for f in json.loads(PROPOSED.read_text()) if f.get("property") == PROP and f["id"] not in {k["id"] for k in known_c14}]
     br = dict(total=0, multiline=0, about_bracket=0, about_multiline_bracket=0, at_end=0, other_token=0, compiled=0, no_diagnostic=0)
     br_by_template, br_by_inner, br_by_type, br_by_depth = {}, {}, {}, {}
+    sites = g4.col_length_sites(REPO)
+    site_hits, site_hits_string = {}, {}
+    ad = dict(total=0, about=0, other=0, compiled=0, multiline=0)
+    ad_by_error, ad_by_index, ad_by_carrier, ad_kw_before = {}, {}, {}, 0
+    an = dict(total=0, at_end=0, other=0, compiled=0, multiline=0)
+    an_by_kind, an_by_template = {}, {}
     for j, r in zip(plant_jobs, pres):
+        for e in r.get("error_msgs", []):
+            if e.get("cl"):
+                si = g4.site_of(sites, e.get("site"))
+                if si is not None:
+                    site_hits[si] = site_hits.get(si, 0) + 1
+                    if e.get("token") and e["token"][0] == "STRING":
+                        site_hits_string[si] = site_hits_string.get(si, 0) + 1
+        if j["kind"] in ("argdiag", "anchor"):
+            final = [e for e in r.get("error_msgs", []) if e.get("message") and e["message"][:60] in (r.get("msg") or "")]
+            whole = tuple(r["cited"]) if r.get("cited") else None
+        if j["kind"] == "argdiag":
+            # (C4) the diagnostic of an argument-list parser must cite the marked token
+            ad["total"] += 1
+            if r["ok"]:
+                ad["compiled"] += 1
+                continue
+            first = next((ln for ln in (r.get("msg") or "").split("\n") if re.search(r" at line \d+(?: col \d+)?\.", ln)), "")
+            if not r["jmc"] or not re.search(j["rx"], first) or not final:
+                ad["other"] += 1
+                continue
+            ad["about"] += 1
+            ad["multiline"] += j["multiline"]
+            ad_by_error[j["family"] + ":" + j["error"]] = ad_by_error.get(j["family"] + ":" + j["error"], 0) + 1
+            ad_by_index[j["index"]] = ad_by_index.get(j["index"], 0) + 1
+            ad_by_carrier[j["carrier"]] = ad_by_carrier.get(j["carrier"], 0) + 1
+            ad_kw_before += (j["n_kw"] > 0 and j["error"] == "comma")
+            hdr, snt = cited_by(final[-1])
+            exp = (j["line"], j["col"])
+            if (snt != exp or (hdr is not None and hdr != exp) or whole != exp) and reportedC < 8:
+                reportedC += 1
+                ck.violation(dict(kind="diagnostic-cites-wrong-position", check="C4", program=j["src"], header=None, layout=j["layout"],
+                                  depth=j["depth"], planted=dict(parser=j["family"], error=j["error"], argument_index=j["index"],
+                                                                 keyword_arguments_before=j["n_kw"], carrier=j["carrier"], inner_layout=j["inner"]),
+                                  expected=dict(line=exp[0], col=exp[1]), actual=dict(header=hdr, sentence=snt, message_of_the_compile=whole),
+                                  message=r["msg"][:600], theorem="C14_args_comma_first_offending / C14_args_cite_given_token"))
+            continue
+        if j["kind"] == "anchor":
+            # (C5) a col_length diagnostic about the anchor must cite the position right after the anchor's last character
+            an["total"] += 1
+            if r["ok"]:
+                an["compiled"] += 1
+                continue
+            if not r["jmc"] or not final or not final[-1].get("token") or not final[-1]["cl"]:
+                an["other"] += 1
+                continue
+            e = final[-1]
+            if j["akind"] != "macro" and (e["token"][1], e["token"][2]) != (j["line"], j["col"]):
+                an["other"] += 1
+                continue
+            an["at_end"] += 1
+            an["multiline"] += j["multiline"]
+            an_by_kind[j["akind"]] = an_by_kind.get(j["akind"], 0) + 1
+            an_by_template[j["template"]] = an_by_template.get(j["template"], 0) + 1
+            hdr, snt = cited_by(e)
+            exp = tuple(j["end"])
+            if (snt != exp or (hdr is not None and hdr != exp) or whole != exp) and reportedC < 8:
+                reportedC += 1
+                ck.violation(dict(kind="diagnostic-cites-wrong-position", check="C5", program=j["src"], header=j["header"], layout=j["layout"],
+                                  depth=j["depth"], anchor=dict(template=j["template"], kind=j["akind"], text=j["anchor"], token=e["token"][:4],
+                                                                raise_site=e.get("site"), token_length=e.get("tlen"), token_end=e.get("tend"),
+                                                                recorded_end=e.get("trec")),
+                                  expected=dict(line=exp[0], col=exp[1], what="the position right after the anchor token's last character"),
+                                  actual=dict(header=hdr, sentence=snt, message_of_the_compile=whole), message=r["msg"][:600],
+                                  theorem="C14_token_end / C14_expected_semicolon_end / C14_end_col_is_source_length"))
+            continue
         if j["kind"] == "bracket":
             # (C3) the diagnostic's token is the planted bracket (its text occurs once in the file): the position written in the
             # header and in the sentence must be the bracket's first character (FUNC: one right; col_length: right after it)
@@ -1093,6 +1182,22 @@ def main(tier: str) -> int:
                           note="too few diagnostics are raised about the planted multi-line bracket: positions cited for tokens that "
                                "span several lines are no longer exercised"), no_input=True)
 
+    # ---- (C4)/(C5) effectiveness, coverage of the col_length raise sites
+    want_errors = [fam + ":" + e[0] for fam in ("args", "obj", "comp", "list", "param") for e in g4._errors(fam)]
+    missing_errors = sorted(k for k in want_errors if ad_by_error.get(k, 0) < 3)
+    if ad["about"] < 0.6 * max(1, ad["total"]) or len(missing_errors) > 3 or len(ad_by_index) < 5 or ad_kw_before < 20:
+        ck.violation(dict(kind="plants-ineffective", argument_diagnostic_plants=ad, by_error=ad_by_error, by_index=ad_by_index,
+                          doubled_comma_behind_keyword_arguments=ad_kw_before, errors_with_fewer_than_3_plants=missing_errors,
+                          note="the diagnostics of the argument-list parsers are no longer reached at every argument index / behind keyword arguments"),
+                     no_input=True)
+    sites_reached = sorted(site_hits)
+    sites_missed = [list(sites[i][:2]) + [sites[i][3]] for i in range(len(sites)) if i not in site_hits]
+    if sites and (len(sites_reached) < 0.85 * len(sites) or an["at_end"] < 0.6 * max(1, an["total"]) or an_by_kind.get("str", 0) < 60
+                  or len(site_hits_string) < 3):
+        ck.violation(dict(kind="plants-ineffective", anchor_plants=an, by_anchor_kind=an_by_kind, col_length_sites=len(sites),
+                          sites_reached=len(sites_reached), sites_reached_with_a_string_anchor=len(site_hits_string), sites_missed=sites_missed[:12],
+                          note="the raise sites with col_length=True are no longer reached with anchors of every kind"), no_input=True)
+
     # ---- (E) every call of exception.error_msg recorded in any run: header == sentence == Model.TokCite.cite col_length token
     ecases, seen_e = [], set()
     n_err_calls = n_err_none = n_err_multiline = n_err_unparsed = 0
@@ -1109,6 +1214,15 @@ def main(tier: str) -> int:
                     ck.violation(dict(kind="diagnostic-sentence-not-found", check="E", program=p_["src"], header=p_.get("header"),
                                       head=e.get("head"), tail=e.get("tail"),
                                       expected="error_msg writes `<message> at line L[ col C].` after the header line"))
+                continue
+            if hdr is None:
+                n_err_unparsed += 1
+                if reportedE < 3:
+                    reportedE += 1
+                    ck.violation(dict(kind="diagnostic-header-without-position", check="E", program=p_["src"], header=p_.get("header"),
+                                      head=e.get("head"), tail=e.get("tail"),
+                                      expected="error_msg writes `In <file>:<line>[:<col>]` as first line (the file of a virtual build lies under the "
+                                               "working directory)"))
                 continue
             if e["token"] is None:
                 n_err_none += 1
@@ -1136,32 +1250,99 @@ def main(tier: str) -> int:
             if not encodable(tok[3]) or len(tok[3]) > 4000:
                 continue
             ml = "\n" in tok[3]
-            key = (tuple(tok), e["cl"], e["el"], hdr, snt)
+            key = (tuple(tok), e["cl"], e["el"], hdr, snt, tuple(e.get("trec") or ()), tuple(e.get("tend") or ()), e.get("tlen"))
             if key in seen_e:
                 continue
             seen_e.add(key)
             n_err_multiline += ml
             ecases.append((p_, e, hdr if hdr is not None else snt, snt, ml))
     if tier == "quick" and len(ecases) > 1500:
-        keep = [c for c in ecases if c[4]]
-        rest = [c for c in ecases if not c[4]]
+        keep = [c for c in ecases if c[4] or (c[1]["cl"] and c[1]["token"][0] == "STRING")]
+        rest = [c for c in ecases if not (c[4] or (c[1]["cl"] and c[1]["token"][0] == "STRING"))]
         ecases = keep[:1100] + rng.sample(rest, min(len(rest), 1500 - min(len(keep), 1100)))
-    oz = lambda x: coq_opt(coq_z(x) if x is not None else None)
-    eterms = [f"EC ({rtok_term(e['token'])}) {coq_bool(e['cl'])} {coq_bool(e['el'])} {coq_z(snt[0])} {oz(snt[1])} {coq_z(hdr[0])} {oz(hdr[1])}"
-              for _, e, hdr, snt, _ in ecases]
-    ebad, eerrs = eval_cases(PROP, COQ_HEADER + env_term([]), eterms, per_file=300, checker="emismatches E", prefix="cites")
+    eterms = [g4.ercase_of(e, hdr, snt) for _, e, hdr, snt, _ in ecases]
+    ebad, eerrs = eval_cases(PROP, COQ_HEADER + env_term([]), eterms, per_file=300, checker="ermismatches E", prefix="cites")
     for e_ in eerrs:
         ck.violation(dict(kind="correspondence-file-failed", log=e_), no_input=True)
     for i in ebad[:3]:
         p_, e, hdr, snt, ml = ecases[i]
         ck.violation(dict(kind="diagnostic-cites-wrong-position", check="E", program=p_["src"], header=p_.get("header"),
                           token=e["token"][:4], col_length=e["cl"], entire_line=e["el"], message=e["message"],
-                          expected="header `In file:L:C` and sentence `at line L col C.` = the token's own (line, col) "
-                                   "(col_length: the position right after the token) - Model.TokCite.cite, theorem C14_error_start",
-                          actual=dict(header=hdr, sentence=snt, token_position=e["token"][1:3])))
+                          expected="header `In file:L:C` and sentence `at line L col C.` = the token's own (line, col); col_length: Token.end = the "
+                                   "position right after the token (a string literal: the end the tokenizer recorded, else col + len(repr)); Token.length "
+                                   "of a string literal on one line = recorded end column - start column - Model.TokEnd.cite_r / tok_len_r, "
+                                   "theorems C14_error_start, C14_token_end, C14_end_col_is_source_length",
+                          actual=dict(header=hdr, sentence=snt, token_position=e["token"][1:3], token_end=e.get("tend"), token_length=e.get("tlen"),
+                                      recorded_end=e.get("trec"))))
     if n_err_multiline < 200:
         ck.violation(dict(kind="corpus-ineffective", error_msg_calls_about_multiline_tokens=n_err_multiline,
                           note="fewer than 200 distinct diagnostics about a token that spans several lines were recorded"), no_input=True)
+
+    # ---- (X) recorded string-literal ends == Model.TokEnd.parse_ends, (G) argument-list parsers == Model.TokArgs
+    all_runs = list(zip(progs, res)) + [(dict(name="mutant", layout="-", src=s_, header=None), r) for s_, r in zip(muts, mres)] + \
+        list(zip(plant_jobs, pres))
+    xcases, seen_x, n_x_noncanonical = [], set(), 0
+    gcases, seen_g, g_skipped, g_by_fn, g_diags = [], set(), {}, {}, {}
+    for p_, r in all_runs:
+        for call in r["calls"]:
+            if call["macros"] or call.get("out", {}).get("kind") != "ok" or not call.get("ends") or not call_encodable(call):
+                continue
+            key = (call["string"], call["line"], call["col"], call["es"], call["alms"], call["allow_semi"])
+            if key in seen_x:
+                continue
+            seen_x.add(key)
+            strs = [t for st in call["out"]["programs"] for t in st if t[0] == "STRING"]
+            odd = any(en[4] != len(t[3]) + 2 or en[2] != en[0] for t, en in zip(strs, call["ends"]))
+            n_x_noncanonical += odd
+            xcases.append((p_, call, odd))
+        for d in r.get("derived", []):
+            term, why = g4.gcase_of(r, d)
+            if term is None:
+                g_skipped[why.split(":")[0]] = g_skipped.get(why.split(":")[0], 0) + 1
+                continue
+            if term in seen_g:
+                continue
+            seen_g.add(term)
+            g_by_fn[d["fn"]] = g_by_fn.get(d["fn"], 0) + 1
+            if "err" in d:
+                a_ = g4.adiag_of(d["err"]["message"])
+                g_diags[d["fn"] + ":" + a_] = g_diags.get(d["fn"] + ":" + a_, 0) + 1
+            gcases.append((p_, d, term))
+    if tier == "quick" and len(xcases) > 1500:
+        odd_ = [c for c in xcases if c[2]]
+        xcases = odd_[:1000] + rng.sample([c for c in xcases if not c[2]], 1500 - min(len(odd_), 1000))
+    xterms = [g4.xcase_of(c) for _, c, _ in xcases]
+    xbad, xerrs = eval_cases(PROP, COQ_HEADER + env_term([c["string"] for _, c, _ in xcases]), xterms, per_file=250, checker="xmismatches E", prefix="ends")
+    for e_ in xerrs:
+        ck.violation(dict(kind="correspondence-file-failed", log=e_), no_input=True)
+    for i in xbad[:4]:
+        p_, call, _ = xcases[i]
+        strs = [t for st in call["out"]["programs"] for t in st if t[0] == "STRING"]
+        ck.violation(dict(kind="string-literal-end-differs-from-model", check="X", program=p_["src"], header=p_.get("header"),
+                          text=call["string"][:400], start=[call["line"], call["col"]],
+                          string_tokens=[dict(at=en[:2], decoded=t[3][:60], token_end=en[2:4], token_length=en[4], end_recorded_by_tokenizer=en[5])
+                                         for t, en in zip(strs, call["ends"])][:6],
+                          expected="Token.end of a string literal = the position right after its closing quote (Model.TokEnd.parse_ends, "
+                                   "theorems C14_string_end_recorded / C14_token_end); Token.length = end column - start column on one line"))
+    if n_x_noncanonical < 40:
+        ck.violation(dict(kind="corpus-ineffective", tokenizer_calls_with_a_string_literal_not_spelled_like_repr=n_x_noncanonical,
+                          note="too few string literals written with escape sequences / continuation lines / backticks were tokenised"), no_input=True)
+    if tier == "quick" and len(gcases) > 2500:
+        diag_ = [c for c in gcases if "err" in c[1]]
+        gcases = diag_[:1800] + rng.sample([c for c in gcases if "err" not in c[1]], 2500 - min(len(diag_), 1800))
+    gbad, gerrs = eval_cases(PROP, COQ_HEADER + "From JMCV Require Import Model.TokArgs.\n", [t for _, _, t in gcases], per_file=250,
+                              checker="gmismatches", prefix="args")
+    for e_ in gerrs:
+        ck.violation(dict(kind="correspondence-file-failed", log=e_), no_input=True)
+    for i in gbad[:4]:
+        p_, d, _ = gcases[i]
+        ck.violation(dict(kind="argument-parser-differs-from-model", check="G", program=p_["src"], header=p_.get("header"), entry_point=d["fn"],
+                          given=[x[:4] for x in d["in"]][:2], diagnostic=d.get("err"), returned=json.dumps(d.get("res"))[:600],
+                          expected="the structure / the diagnostic and the token it cites of Model.TokArgs on the tokens of the inner tokenizer run "
+                                   "(theorems C14_args_cite_given_token, C14_args_comma_first_offending)"))
+    if len(g_diags) < 20 or g_diags.get("parse_func_args:AComma", 0) < 30:
+        ck.violation(dict(kind="corpus-ineffective", argument_parser_diagnostics_compared=g_diags,
+                          note="too few kinds of diagnostics of the argument-list parsers were recorded"), no_input=True)
 
     # ---- (A2) sign tokens split off `key=-N` / `key=+N` == Model.TokDerived.split_sign d_sign
     splits, seen_s = [], set()
@@ -1189,8 +1370,8 @@ def main(tier: str) -> int:
     for _, c, k in calls:
         kinds[k] = kinds.get(k, 0) + 1
     ck.cov.update(dict(
-        evaluations=len(calls) + len(plant_jobs) + len(splits),
-        distinct_nontrivial=len(calls) + n_named + n_arg_about + len(splits),
+        evaluations=len(calls) + len(plant_jobs) + len(splits) + len(xcases) + len(gcases) + len(ecases),
+        distinct_nontrivial=len(calls) + n_named + n_arg_about + len(splits) + ad["about"] + an["at_end"] + len(gcases) + len(xcases),
         rule="(A) distinct (text, start, flags) calls of Tokenizer.parse recorded on corpus x layouts + character mutants, each compared "
              "token-for-token / diagnostic-position with Tok.parse in Coq; (C) planted statements reported by name; "
              "distinct_nontrivial = distinct calls + named plants",
@@ -1205,11 +1386,18 @@ def main(tier: str) -> int:
                     other_diagnostic=n_other, still_compiles=n_compiled, in_generated_text=n_generated, by_depth=by_depth, by_layout=by_layout,
                     named_in_brace_layouts_by_construct=by_construct_brace,
                     compared_with_model=len(model_cases)),
-        disagreements_checked=len(bad) + len(pbad) + len(sbad) + len(ebad),
+        disagreements_checked=len(bad) + len(pbad) + len(sbad) + len(ebad) + len(xbad) + len(gbad),
         bracket_plants=dict(br, by_template=br_by_template, by_inner_layout=br_by_inner, by_token_type=br_by_type, by_depth=br_by_depth),
         error_msg_calls=dict(recorded=n_err_calls, without_token=n_err_none, distinct_compared_with_model=len(ecases),
                              about_a_multiline_token=n_err_multiline, sentence_not_found=n_err_unparsed,
                              token_text_unique_in_file_checked_at_its_text=n_err_unique),
+        argument_diagnostic_plants=dict(ad, by_error=ad_by_error, by_index=ad_by_index, by_carrier=ad_by_carrier,
+                                        doubled_comma_behind_keyword_arguments=ad_kw_before),
+        anchor_plants=dict(an, by_anchor_kind=an_by_kind, by_template=an_by_template),
+        col_length_raise_sites=dict(enumerated=len(sites), reached=len(sites_reached), reached_with_a_string_anchor=len(site_hits_string),
+                                    missed=sites_missed),
+        string_literal_ends=dict(tokenizer_calls_compared=len(xcases), with_a_literal_not_spelled_like_repr=n_x_noncanonical),
+        argument_parser_calls=dict(compared=len(gcases), by_entry_point=g_by_fn, diagnostics=g_diags, skipped=g_skipped),
         samples=[dict(program=j["src"][:160], planted=[j["line"], j["col"]]) for j in plant_jobs[:2] + plant_jobs[-2:]],
     ))
     return ck.finish()
@@ -1227,6 +1415,30 @@ def replay(path: str) -> int:
         print("expected: line %(line)s col %(col)s" % rp["expected"])
         print("actual  :", r["exc"], r["cited"])
         return 0 if r["cited"] and tuple(r["cited"]) == (rp["expected"]["line"], rp["expected"]["col"]) else 1
+    if rp.get("check") == "X":
+        # untrusted re-scan of the file text: a literal runs from its opening quote to the next unescaped occurrence of that quote
+        n_bad = 0
+        for call in r["calls"]:
+            fs = r["file_strings"][call["fs"]]
+            for en in call.get("ends") or []:
+                o = offset_of(fs, en[0], en[1])
+                if o is None or call["string"] not in fs or fs[o:o + 1] not in ("'", '"', "`"):
+                    continue
+                k, q = o + 1, fs[o]
+                while k < len(fs) and fs[k] != q:
+                    k += 2 if fs[k] == "\\" else 1
+                exp = pos_of(fs, k + 1)
+                if tuple(en[2:4]) != exp:
+                    n_bad += 1
+                    print("string literal at", en[:2], "expected end", exp, "actual Token.end", en[2:4], "Token.length", en[4])
+        print("expected: Token.end of every string literal = the position right after its closing quote; mismatches:", n_bad)
+        return 1 if n_bad else 0
+    if rp.get("check") == "G":
+        ds = [d for d in r.get("derived", []) if d["fn"] == rp.get("entry_point")]
+        print("expected:", rp.get("expected"))
+        print("actual  :", [(d.get("err") or {}).get("token") or "returned" for d in ds][:6], "| recorded:", (rp.get("diagnostic") or {}).get("token"))
+        same = any((d.get("err") or {}).get("token") == (rp.get("diagnostic") or {}).get("token") for d in ds)
+        return 1 if same else 0
     bad, a, b, _ = handover_failures(r)
     bad2, a2, b2, _ = derived_failures(r)
     bad3, a3, _ = raw_handover_failures(r)
